@@ -1697,16 +1697,18 @@ impl Runner {
         let (src, bytes, kind, maker) = self.w.recorded[cands[idx % cands.len()]].clone();
         // another source: the address of some peer, or the IPv4-mapped IPv6 form of the original
         // source (another socket address as far as sessions and challenges are concerned)
-        let mapped = other_src && rng.chance(1, 3);
-        let src = if mapped {
-            match src {
+        let orig_src = src;
+        let how = if other_src { 1 + rng.below(3) } else { 0 };
+        let mapped = how == 1;
+        let src = match how {
+            1 => match src {
                 SocketAddr::V4(a) => SocketAddr::new(IpAddr::V6(a.ip().to_ipv6_mapped()), a.port()),
                 other => other,
-            }
-        } else if other_src {
-            self.w.peers[rng.below(self.w.peers.len() as u64) as usize].addr
-        } else {
-            src
+            },
+            // the same host, another port
+            2 => SocketAddr::new(src.ip(), src.port() + 1 + rng.below(3) as u16),
+            3 => self.w.peers[rng.below(self.w.peers.len() as u64) as usize].addr,
+            _ => src,
         };
         // a handshake whose challenge is consumed (or was never ours) must have no effect
         let k = if kind == "handshake" || kind == "replay-hs" {
@@ -1738,6 +1740,12 @@ impl Runner {
             // C02: presenting a datagram from another source address never produces a delivered message
             if self.steps[n0..].iter().any(|s| s.outs.iter().any(|o| matches!(o, AOut::Request(..) | AOut::Response(..) | AOut::Established(..)))) {
                 self.w.failures.push(("C02".into(), "a datagram presented from the IPv4-mapped form of its source address was accepted".into()));
+            }
+        } else if src != orig_src {
+            // (every peer of the harness speaks from one socket address only: no session and no challenge
+            // exists for its node id at any other address)
+            if self.steps[n0..].iter().any(|s| s.outs.iter().any(|o| matches!(o, AOut::Request(..) | AOut::Response(..) | AOut::Established(..)))) {
+                self.w.failures.push(("C02".into(), "a recorded datagram presented from another source address than the one it was sent from was accepted (session created or message delivered)".into()));
             }
         }
     }
